@@ -20,7 +20,8 @@ RULE = ('case = handler flags x usage line length x argument set x evaluated hel
         'words with "nn" breaks, list lines and explicit newlines. Display settings: every combination of the '
         'constructor flags (usage hidden / usage deprecated) and of the evaluated arguments --print-hidden, '
         '--print-deprecated, --help-short, --help-long before (or after) -h/--help is enumerated for a family of '
-        'argument sets; --help-arg for exact, abbreviated, ambiguous, hidden, standard and unknown keys. A case is '
+        'argument sets; --help-arg for exact, abbreviated, ambiguous, hidden, standard and unknown keys; usage texts '
+        '(IUsageText) before / after / unused, one or two, incl. the combinations the constructor refuses. A case is '
         'non-trivial when the model prints at least one entry.')
 TRUSTED_BASE = [
     'model Text/Usage.v written by hand from argument_desc.cpp, usage_params.cpp and handler.cpp (handleStartFlags, '
@@ -28,7 +29,8 @@ TRUSTED_BASE = [
     'C05 models ArgH/Key.v and ArgH/Table.v; tied by the correspondence check (this run) on the digest of the text '
     'written to the output and error stream (captions, key texts, words per entry) and - as internal observable - '
     'on the complete raw text',
-    'the digest function (Usage.digest) is mirrored by hand in harness/c18_harness.cpp',
+    'the digest function (Usage.digest) is mirrored by hand in harness/c18_harness.cpp; that it reads the model text as '
+    'the spec digest is proved (C18_usage_digest)',
     'extraction: ExtrOcamlBasic only; nat and N stay extracted datatypes; ocaml/c18_driver.ml does I/O only',
     'C++ harness harness/c18_harness.cpp (std::ostringstream as output and error stream, own ICheck / IArgConstraint '
     'classes that only deliver a text, g++ -O1, ASan+UBSan)',
@@ -37,7 +39,7 @@ ASSUMPTIONS = [
     'the handler is used with "usage continues" (hfUsageCont); without it the usage ends the process',
     'printing the default value is only enabled for destination types that deliver one (defaultValue() overridden); '
     'setPrintDefault(true) on e.g. a boolean flag makes the usage throw and is outside the property',
-    'no usage texts (IUsageText), no sub-groups, no argument groups; keys contain no blank',
+    'no sub-groups, no argument groups; keys contain no blank',
     'line length in the range accepted by setUsageLineLength (60..239)',
 ]
 
@@ -67,8 +69,18 @@ def arg_tok(a):
         '~'.join(hx(c) for c in a['chk']) or '-', '~'.join(hx(c) for c in a['con']) or '-', hx(a['desc']))
 
 
-def mk_case(flags, width, cmds, args):
-    return 'f=%d w=%d c=%s %s' % (flags, width, ','.join(cmds) or '-', ' '.join(arg_tok(a) for a in args))
+def mk_case(flags, width, cmds, args, t1=None, t2=None):
+    """t1 / t2: usage texts (position 'b'|'a'|'u', text) given to the constructor"""
+    txt = ''.join(' %s=%s:%s' % (n, t[0], hx(t[1])) for n, t in (('t1', t1), ('t2', t2)) if t)
+    return 'f=%d w=%d c=%s%s %s' % (flags, width, ','.join(cmds) or '-', txt, ' '.join(arg_tok(a) for a in args))
+
+
+def parse_texts(case):
+    t = {}
+    for tok in case.split(' '):
+        if tok[:3] in ('t1=', 't2='):
+            t[tok[:2]] = (tok[3], unhx(tok[5:]))
+    return t.get('t1'), t.get('t2')
 
 
 def parse_case(case):
@@ -194,6 +206,32 @@ def expected_usage(p, ds):
     return items
 
 
+def read_lines(items, text):
+    """the layout-insensitive reading (Usage.add_line) of a usage text, continued on [items]"""
+    for line in (text + '\n').split('\n'):
+        toks = [w for w in line.split(' ') if w]
+        if not toks:
+            continue
+        lead = len(line) - len(line.lstrip(' '))
+        if lead == 0:
+            items.append(('C', line))
+        elif lead == 3:
+            items.append(('E', toks[0], toks[1:]))
+        elif items and items[-1][0] == 'E':
+            items[-1] = ('E', items[-1][1], items[-1][2] + toks)
+        else:
+            items.append(('E', '', toks))
+    return items
+
+
+def texts_valid(t1, t2):
+    if t1 is None:
+        return t2 is None
+    if t2 is None:
+        return True
+    return t1[0] != t2[0] and not (t1[0] == 'a' and t2[0] == 'b')
+
+
 def parse_digest(s):
     items = []
     if s in ('-', ''):
@@ -236,6 +274,10 @@ def _violation(case, ir):
         return 'crash', 'memory error / abort in the implementation: ' + ir[:200]
     flags, width, cmds, args = parse_case(case)
     res = ir.split(' ##')[0].strip()
+    t1, t2 = parse_texts(case)
+    if not texts_valid(t1, t2):
+        return None if res.startswith('setup:invalid_argument') else (
+            'usage-texts', 'this combination of usage texts must be refused by the constructor, got ' + res[:60])
     if res.startswith('setup:'):
         return None   # the configuration was refused: nothing was printed
     ds = std_args(flags) + [descr(a) for a in args]
@@ -252,7 +294,12 @@ def _violation(case, ir):
                 break
             p['cont'] = 'short' if c == 'hs' else 'long'
         elif c in ('h', 'H'):
+            if t1 and t1[0] == 'b':
+                read_lines(want_out, t1[1])
             want_out += expected_usage(p, ds)
+            after = t1 if t1 and t1[0] == 'a' else (t2 if t2 and t2[0] == 'a' else None)
+            if after:
+                read_lines(want_out, after[1])
             printed = True
         elif c.startswith('ha='):
             q = unhx(c[3:])
@@ -392,6 +439,9 @@ def histogram_keys(case, mr):
         keys.append('usage:' + '+'.join(sorted(c for c in cmds if c in ('ph', 'pd', 'hs', 'hl'))))
     if mr and mr.startswith('err'):
         keys.append('err')
+    t1, t2 = parse_texts(case)
+    if t1 or t2:
+        keys.append('usage-texts' if texts_valid(t1, t2) else 'usage-texts-refused')
     ds = [descr(a) for a in args]
     if any(len(key_text('all', d)) >= 38 for d in ds):
         keys.append('long-key')
@@ -499,6 +549,16 @@ def rargs(rng, n, long_keys=False, family=False):
     return args
 
 
+def rusage_text(rng):
+    """usage text: lines in column 0, lines indented like an entry (3) or deeper, empty lines"""
+    lines = []
+    for _ in range(rng.range(1, 5)):
+        ind = rng.choice([0, 0, 0, 1, 3, 5, 8])
+        lines.append(' ' * ind + ' '.join(rword(rng) for _ in range(rng.range(0, 6))))
+    t = '\n'.join(lines)
+    return t + '\n' if rng.chance(1, 4) else t
+
+
 def rflags(rng):
     f = F['UsageCont'] | rng.choice([1, 2, 3, 3])
     for name in ('HelpArg', 'ArgHidden', 'ArgDeprecated', 'UsageShort', 'UsageLong'):
@@ -551,6 +611,14 @@ CORPUS = [
         mk_arg('n,new', 's', '', 'n', repl='--newer', desc='- first entry nn second\n- other'),
         mk_arg('x', 'v', '', '', con=['Requires input', 'excludes (s)'], desc='a vector'),
         mk_arg('-', 's', '', '', desc='positional')]),
+    # usage texts: before + after, after only, indented like an entry, refused combinations
+    mk_case(F['UsageCont'] | 1, 80, ['h'], [mk_arg('a', 'i', '', 'm', desc='x')],
+            ('b', 'Program to do things.\n   with an indented line'), ('a', 'See also:\n     other things')),
+    mk_case(F['UsageCont'] | 1, 80, ['h'], [mk_arg('a', 'i', '', '', desc='x y')], ('a', '      deeper than an entry')),
+    mk_case(F['UsageCont'] | 1, 80, ['h'], [mk_arg('a', 'i', '', '', desc='x y')], ('u', 'never shown'), ('a', 'shown')),
+    mk_case(F['UsageCont'] | 1, 80, ['h'], [], None, ('a', 'second only')),
+    mk_case(F['UsageCont'] | 1, 80, ['h'], [], ('a', 'one'), ('b', 'two')),
+    mk_case(F['UsageCont'] | 1, 80, ['h'], [], ('b', 'one'), ('b', 'two')),
     # no visible argument at all; only mandatory; only optional
     mk_case(F['UsageCont'] | 1, 80, ['h'], []),
     mk_case(F['UsageCont'] | 1 | F['UsageLong'], 80, ['hl', 'h'], [mk_arg('a', 'i', '', 'm', desc='x')]),
@@ -627,19 +695,34 @@ def gen_cases(tier, rng):
             elif m == 1:
                 q = q + 'x'
             cmds = sc + ['ha=' + hx(q)]
-        cases.append(mk_case(f, width, cmds, args))
+        t1 = t2 = None
+        if any(c in ('h', 'H') for c in cmds) and rng.chance(1, 4):
+            t1 = (rng.choice('bbau'), rusage_text(rng))
+            if rng.chance(1, 2):
+                t2 = (rng.choice('abu'), rusage_text(rng))
+            elif rng.chance(1, 12):
+                t1, t2 = None, t1           # only the second text: refused
+        cases.append(mk_case(f, width, cmds, args, t1, t2))
     return {'cases': cases, 'exhaustive': True,
             'scopes': ['exhaustive: %d argument sets (one covering mandatory x hidden x deprecated x short/long/both) x '
                        'usage-hidden x usage-deprecated flags x --print-hidden x --print-deprecated x '
                        '{all, short, long, short then long, long then short}' % (nsets + 1),
                        'random: %d cases (flags, 0..9 arguments, key lengths around 40, descriptions of 0..60 words, '
-                       'line lengths 60..239, settings before/after the help argument, --help-arg with exact / '
+                       'line lengths 60..239, usage texts before / after / unused incl. refused combinations, settings '
+                       'before/after the help argument, --help-arg with exact / '
                        'abbreviated / ambiguous / unknown keys)' % nrand,
                        'corpus: %d hand-made cases' % len(CORPUS)]}
 
 
 def shrink(case):
     flags, width, cmds, args = parse_case(case)
+    t1, t2 = parse_texts(case)
+    if t1 or t2:
+        # first try without the texts, then keep them fixed
+        yield mk_case(flags, width, cmds, args)
+        for i in range(len(args)):
+            yield mk_case(flags, width, cmds, args[:i] + args[i + 1:], t1, t2)
+        return
     for i in range(len(args)):
         yield mk_case(flags, width, cmds, args[:i] + args[i + 1:])
     for i in range(len(cmds)):
@@ -676,15 +759,22 @@ CLAIM = {
             '(C18_usage_entry_complete, _extras_configured, _key_text_complete); short-only / long-only display lists '
             'exactly arguments with such a key (C18_usage_short_long_only); --help-arg prints the description of the '
             'argument it found or reports the key as unknown (C18_help_arg_known_or_unknown); a requested display is on '
-            'afterwards and the usage does not throw (C18_display_requested, _usage_never_throws). The model is tied to '
+            'afterwards and the usage does not throw (C18_display_requested, _usage_never_throws); the '
+            'layout-insensitive digest that harness and driver print, computed from the characters the model writes, '
+            'equals the digest computed directly from the visible arguments (C18_usage_digest, _digest_key_good); usage '
+            'texts are accepted / refused as handleStartFlags says, written verbatim before / after the usage and do '
+            'not disturb its digest (C18_usage_texts). The model is tied to '
             'the code by a correspondence check on a layout-insensitive digest of the text written to the output and '
             'error stream (captions, ordered key texts, words per entry) and on the raw text as internal observable.',
     'note': 'three defects of the pinned tree found and repaired (fixes/C18-1..3): --help-arg with an abbreviated key '
             'printed no description; the usage threw for level counter arguments; --print-hidden / --print-deprecated '
             'switched the display off when the constructor flag had switched it on. trusted: Coq kernel, extraction, '
             'the hand-written model (validated by correspondence on every run), the digest function mirrored in the '
-            'harness; domain: hfUsageCont, no usage texts / sub-groups / groups, print-default only on types that '
-            'deliver a default value',
+            'harness (its agreement with the spec digest is now a Coq theorem, no longer only the Python oracle); '
+            'domain: hfUsageCont, no sub-groups / groups, print-default only on types that deliver a default value, key '
+            'characters neither blank nor newline; not modelled: the "Properties" block of --help-arg-full (needs '
+            'variable / type names, value mode, cardinality and format texts in the descriptor), partial output before '
+            'an exception',
     'technique': 'Coq proof: counting lemma over the two-pass printer (induction over the argument list with the '
                  'printed-counter as invariant), filter/permutation reasoning, C17 words-preserved for the entries; '
                  'model/implementation correspondence with enumerated display settings',
